@@ -109,6 +109,12 @@ func (f *faultReaderAt) ReadAt(p []byte, off int64) (int, error) {
 			n = copy(p[:len(p)/2], f.b[off:])
 		}
 		return n, io.ErrUnexpectedEOF
+	case "err-with-full-count": // all bytes asked for are delivered, together with a (non-EOF) error
+		if off+int64(len(p)) > int64(len(f.b)) || len(p) == 0 {
+			break
+		}
+		f.plan.hit()
+		return copy(p, f.b[off:]), errInjected
 	case "early-eof": // the data ends before the place it ended when the image was parsed
 		if off >= int64(len(f.b)) || len(p) == 0 || !f.parsed {
 			break // a genuine end of data, or the length is still being learnt: nothing to inject
@@ -283,7 +289,7 @@ func c15Ops() []c15Op {
 	signed := c15SignedImage()
 	sigKinds := []string{"err"}
 	fsKinds := []string{"err", "short", "eagain", "eintr"}
-	rdKinds := []string{"err", "unexpected-eof", "early-eof", "err-wrapping-eof"}
+	rdKinds := []string{"err", "unexpected-eof", "early-eof", "err-wrapping-eof", "err-with-full-count"}
 	blobValue := func(b []byte, det []byte) string {
 		if v := refp7.ParseAndValid(b, cert, det); !v.OK {
 			return "INVALID-SIGNATURE: " + v.Reason
